@@ -20,6 +20,21 @@ from .extract import StaleContract
 
 DROPPED_CALLEE_PREFIXES = ("logging.", "LOG.", "logger.", "log.", "warnings.")
 DROPPED_CALLEES = ("print",)
+_PURE_BUILTINS = ("len", "int", "bool", "str", "repr", "bytes", "range", "reversed", "isinstance", "min", "max", "abs", "tuple", "sorted",
+                  "enumerate", "zip", "iter", "callable", "getattr", "hasattr", "id", "type", "float", "round", "ord", "chr", "hash", "any", "all", "sum")
+_LOG_METHODS = ("debug", "info", "warning", "warn", "error", "exception", "critical", "log", "fatal")
+
+
+def is_dropped_callee(d) -> bool:
+    """logging calls (and print): `LOG.warning(...)`, `logging.exception(...)`; a variable that merely happens to be called
+    `logger` keeps its other methods (`logger.add_log_entry(...)` is a real call)"""
+    if d is None:
+        return False
+    if d in DROPPED_CALLEES:
+        return True
+    if d.startswith(DROPPED_CALLEE_PREFIXES):
+        return d.rsplit(".", 1)[-1] in _LOG_METHODS
+    return False
 
 EXC_PARENTS = {
     "Exception": "BaseException", "ValueError": "Exception", "KeyError": "LookupError", "IndexError": "LookupError",
@@ -107,6 +122,7 @@ class State:
         self.ghost: Dict[str, Any] = {}                    # ghost counters: name -> z3 Int
         self.calls: Dict[str, list] = {}                   # ghost call log: name -> [env at call]
         self.objcls: Dict[str, str] = {}
+        self.broad = False          # a loop whose body has effects the syntactic scan cannot see was cut on this path
 
     def snapshot(self) -> "State":
         s = State()
@@ -117,6 +133,7 @@ class State:
         s.ghost = dict(self.ghost)
         s.calls = {k: list(v) for k, v in self.calls.items()}
         s.objcls = self.objcls
+        s.broad = self.broad
         return s
 
 
@@ -413,7 +430,28 @@ class Engine:
         st.init_heap[key] = v
         if obj.t in self.entry.env or obj.t == "self" or "." in obj.t:
             self.inputs[f"{obj.t}.{fld}"] = v
+        if st.broad and not self.spec_mode_old() and self._may_change(obj.t, fld):
+            # first read after a loop cut with unseen effects: the loop may have changed this location
+            v2 = self._havoc_value(v, f"{obj.t}.{fld}")
+            if v.k == "obj":
+                v2 = v
+            st.heap[key] = v2
+            return v2
         return v
+
+    def spec_mode_old(self) -> bool:
+        """evaluating inside old(...): the entry state is being read"""
+        return bool(self.__dict__.get("_in_old", 0))
+
+    def _may_change(self, oid: str, fld: str) -> bool:
+        """may the verified function change this location at all? (its frame, or a locally created object)"""
+        c = self.c
+        if oid in self.fresh_objs or any(oid.startswith(f + ".") for f in self.fresh_objs):
+            return True
+        if c.frame is None:
+            return True
+        allowed = set(c.frame)
+        return f"{oid}.{fld}" in allowed or (oid == "self" and fld in allowed) or f"*.{fld}" in allowed
 
     def heap_set(self, obj: V, fld: str, v: V):
         # make sure the entry value exists so frame/old() can refer to it
@@ -823,7 +861,7 @@ class Engine:
                 continue
             if isinstance(st_, ast.Expr) and isinstance(st_.value, ast.Call):
                 d = self.dotted(st_.value.func)
-                if d is not None and (d in DROPPED_CALLEES or d.startswith(DROPPED_CALLEE_PREFIXES)):
+                if is_dropped_callee(d):
                     continue
             return False
         return True
@@ -1044,27 +1082,55 @@ class Engine:
                 cur = self.heap_get(objv, node.attr)
                 self.heap_set(objv, node.attr, self._havoc_value(cur, a))
         # contract callees in the body: havoc their frames
+        broad = False
         for call in calls:
-            self._havoc_call_frame(call)
+            dn = self.dotted(call.func)
+            summ = self.c.externals.get(dn or "")
+            if summ is None and isinstance(call.func, ast.Attribute):
+                summ = self.c.externals.get("*." + call.func.attr)
+            if summ is not None:
+                self._ext_havoc(summ, [])             # what the summary says the call modifies
+                continue
+            if is_dropped_callee(dn):
+                continue
+            if isinstance(call.func, ast.Name) and call.func.id in _PURE_BUILTINS and call.func.id not in self.closures:
+                continue
+            if self._havoc_call_frame(call):
+                continue
+            broad = True          # an inlined helper / method of a live object / constructor: its stores are not visible here
+        if broad:
+            # everything the function may change at all is unknown at the loop head: its frame and its own local objects
+            for key in list(dict.fromkeys(list(st.heap.keys()) + list(st.init_heap.keys()))):
+                oid, fld = key
+                if not isinstance(oid, str) or not self._may_change(oid, fld):
+                    continue
+                cur = st.heap.get(key, st.init_heap.get(key))
+                if cur is None or cur.k == "obj":
+                    continue
+                st.heap[key] = self._havoc_value(cur, f"{oid}.{fld}")
+            st.broad = True
         for g in spec.get("havoc_ghost", []):
             if g in st.ghost:
                 st.ghost[g] = z3.Int(fresh_name(g))
 
-    def _havoc_call_frame(self, call: ast.Call):
+    def _havoc_call_frame(self, call: ast.Call) -> bool:
+        """a call to a method under contract: its declared frame on the receiver is unknown at the loop head. False when the
+        call is not such a call (or its frame cannot be resolved here): the caller then falls back to the broad havoc"""
         if not isinstance(call.func, ast.Attribute):
-            return
+            return False
         try:
             recv = self.ev(call.func.value)
         except (OutOfReach, PyRaise, KeyError):
-            return
+            return False
         if recv.k != "obj":
-            return
+            return False
         cc = self.reg.method_contract(recv.cls, call.func.attr)
-        if cc is None:
-            return
-        for f in (cc.frame or []):
+        if cc is None or cc.frame is None or any("." in f for f in cc.frame):
+            return False
+        for f in cc.frame:
             cur = self.heap_get(recv, f)
             self.heap_set(recv, f, self._havoc_value(cur, f"{recv.t}.{f}"))
+        return True
 
     def _loop_preserve(self, spec, lab, env):
         for cl in spec.get("iter_post", []):
@@ -1136,12 +1202,23 @@ class Engine:
             genv[k] = self._havoc_value(genv0[k], k)
         for inv in spec["inv"]:
             st.pc.append(self.clause_bool(inv, st, self.entry, genv))
+        # the invariant holds for every value of a universally quantified ghost parameter: further instances may be named
+        for gname, exprs in spec.get("ghost_instances", {}).items():
+            for ex_ in exprs:
+                inst = dict(genv)
+                inst[gname] = self.clause_val(ex_, st, self.entry, genv)
+                for inv in spec["inv"]:
+                    if re.search(r"\b" + re.escape(gname) + r"\b", inv):
+                        st.pc.append(self.clause_bool(inv, st, self.entry, inst))
         if self.branch(gi < n, lab + "c"):
             elem = it["elem"](gi)
             if it["kind"] in ("bytes", "seq"):
                 st.pc.append(z3.And(0 <= elem.t, elem.t <= 255))
             self.assign(s.target, elem)
             self._loop_ghost_env = genv
+            # ghost_pre: named snapshots of the state at the start of the iteration (for lemmas about what one iteration did)
+            for k, srcg in spec.get("ghost_pre", {}).items():
+                genv[k] = self.clause_val(srcg, st, self.entry, genv)
             try:
                 self.exec_block(s.body)
             except _Continue:
@@ -1149,6 +1226,15 @@ class Engine:
             except _Break:
                 st.ghost[f"L{ordn}_left_early"] = z3.IntVal(1)      # ghost: the loop was left by `break` before exhausting its iterable
                 return
+            # lemmas: small facts about this iteration, each proved on its own and then available to the obligations that follow
+            lem_ = []
+            for cl in spec.get("lemmas", []):
+                g = self.clause_bool(cl, st, self.entry, genv)
+                self.path_label.append(lab + "lemma")
+                self.emit("iter-lemma", g, clause=cl)
+                self.path_label.pop()
+                lem_.append(g)
+            st.pc.extend(lem_)      # each lemma is proved from the path condition alone, all are available afterwards
             genv2 = {"_i": mk_int(gi + 1)}
             if it["kind"] == "bytes":
                 d2 = snoc(genv["_done"].t, self.as_int(elem))
@@ -1670,6 +1756,29 @@ class Engine:
             off += sz
         return mk_tuple(out)
 
+    def seq_nth(self, t, i, depth=0):
+        """t[i] with concatenations unfolded by the executor: nth(a ++ b, i) = ite(i < |a|, nth(a, i), nth(b, i - |a|)), a unit's
+        element is the element. Neither solver unfolds nth-of-concat at a symbolic index reliably; unfolded, the obligation is
+        arithmetic over the pieces. Agrees with seq.nth for every index inside the sequence."""
+        if depth > 12 or not z3.is_app(t):
+            return t[i]
+        k = t.decl().kind()
+        if k == z3.Z3_OP_SEQ_UNIT:
+            return t.arg(0)
+        if k == z3.Z3_OP_SEQ_CONCAT:
+            parts = [t.arg(j) for j in range(t.num_args())]
+            off = z3.IntVal(0)
+            res = None
+            terms = []
+            for p_ in parts:
+                terms.append((off, p_))
+                off = z3.simplify(off + z3.Length(p_))
+            res = self.seq_nth(terms[-1][1], z3.simplify(i - terms[-1][0]), depth + 1)
+            for (o_, p_), (o_next, _) in reversed(list(zip(terms[:-1], terms[1:]))):
+                res = z3.If(i < o_next, self.seq_nth(p_, z3.simplify(i - o_), depth + 1), res)
+            return res
+        return t[i]
+
     def _link_extract(self, t, i, depth=0):
         """t[i] == base[off + i] for t = seq.extract(base, off, len): stated explicitly, because neither solver unfolds
         nth-of-extract reliably. Valid whenever 0 <= off and i < len(t)."""
@@ -1881,8 +1990,8 @@ class Engine:
                 if not self.branch(z3.And(-ln <= i, i < ln), "idx"):
                     raise PyRaise("IndexError")
             if self.spec_mode:
-                return mk_int(base.t[i])      # clauses index mathematically (authors guard 0 <= i < len)
-            el = base.t[z3.If(i < 0, ln + i, i)]
+                return mk_int(self.seq_nth(base.t, i))      # clauses index mathematically (authors guard 0 <= i < len)
+            el = self.seq_nth(base.t, z3.If(i < 0, ln + i, i))
             self.assume(z3.And(0 <= el, el <= 255))
             self._link_extract(base.t, z3.simplify(z3.If(i < 0, ln + i, i)))
             return mk_int(el)
@@ -2005,7 +2114,7 @@ class Engine:
         f = n.func
         d = self.dotted(f)
         # dropped callees (no effect on modelled state)
-        if d is not None and (d in DROPPED_CALLEES or d.startswith(DROPPED_CALLEE_PREFIXES)):
+        if is_dropped_callee(d):
             return NONE
         # spec forms
         if isinstance(f, ast.Name):
@@ -2652,7 +2761,8 @@ class Engine:
                 if z3.is_int_value(idx) and idx.as_long() == 0 and ml is None:
                     a2 = z3.Array(fresh_name("ins_a"), z3.IntSort(), z3.IntSort())
                     i = z3.Int(fresh_name("qi"))
-                    self.assume(z3.ForAll([i], z3.Implies(z3.And(0 <= i, i < nn), a2[i + 1] == a[i]), patterns=[a2[i + 1]]))
+                    # shifted copy, stated for the pattern a2[i] (the form reads of the new list take) as well as a2[i + 1]
+                    self.assume(z3.ForAll([i], z3.Implies(z3.And(1 <= i, i <= nn), a2[i] == a[i - 1]), patterns=[a2[i]]))
                     self.assume(a2[0] == x)
                     self.store_back(f.value, V("ilist", (a2, nn + 1, None)))
                     return NONE
